@@ -6,6 +6,8 @@
 (*               <<cx,cy,angle>> as 16.16 integers (on the half-pixel lattice / whole degrees)  *)
 (*        stops  <<x (16.16), alpha, red, green, blue (16 bit, multiples of 257)>> each         *)
 (*        m      the nine 16.16 entries of the image transform, or <<>> for none                *)
+(*        mask   (optional, with mfmt) rows of alpha values of an a8 / a8r8g8b8 mask image: the      *)
+(*               composite is gradient IN mask (narrow pipeline only)                              *)
 (*        wide   destination rgba_float (channels logged in 1/256 of an 8-bit step) instead of  *)
 (*               a8r8g8b8                                                                      *)
 (*        claim  FALSE: safety scenario (arbitrary stops / degenerate geometry); only           *)
@@ -50,7 +52,7 @@ StopsOK(ss) == \A n \in 1..Len(ss) : \A k \in 2..5 : Exact(ss[n][k], 257)
 StopsOf(ss) == [n \in 1..Len(ss) |-> [x |-> ss[n][1],
                                         c |-> <<Div(ss[n][2], 257), Div(ss[n][3], 257), Div(ss[n][4], 257), Div(ss[n][5], 257)>>]]
 
-Dummy == [kind |-> "none", g |-> <<>>, hu |-> 1, stops |-> <<>>, repeat |-> "NONE", m |-> Identity, unit |-> 1]
+Dummy == [kind |-> "none", g |-> <<>>, hu |-> 1, stops |-> <<>>, repeat |-> "NONE", m |-> Identity, unit |-> 1, mask |-> <<>>]
 
 TReset ==
     /\ Is("Reset")
@@ -63,7 +65,8 @@ TBegin ==
        THEN /\ GeomOK(Ev.kind, Ev.g) /\ StopsOK(Ev.stops)
             /\ Ev.repeat \in {"NONE", "NORMAL", "PAD", "REFLECT"}
             /\ GBegin([kind |-> Ev.kind, g |-> GeomOf(Ev.kind, Ev.g), hu |-> HuOf(Ev.kind, Ev.g), stops |-> StopsOf(Ev.stops),
-                       repeat |-> Ev.repeat, m |-> MatrixOf(Ev.m), unit |-> IF Ev.wide THEN 256 ELSE 1],
+                       repeat |-> Ev.repeat, m |-> MatrixOf(Ev.m), unit |-> IF Ev.wide THEN 256 ELSE 1,
+                       mask |-> IF Has(Ev, "mask") THEN Ev.mask ELSE <<>>],
                       TRUE, Ev.dh)
        ELSE GBegin(Dummy, FALSE, 0)
     /\ UNCHANGED stat /\ l' = l + 1
